@@ -390,6 +390,91 @@ func c12(x *mon.Ctx) {
 		})
 	}
 
+	// ---- (b5) what the library returned is the caller's: a caller that edits the certificate chain ExtractChainFromQuote gave it,
+	//      the TCB levels the reporting API gave it, or the value DefaultOptions gave it, changes nothing for later calls (its
+	//      own or anybody else's) — the verdict depends on the quote, the settings and the fetched data only
+	{
+		n := 0
+		for wi := 0; wi < x.Pick(6, 40); wi++ {
+			r := x.Rand(fmt.Sprint("returned-values", wi))
+			w := richHonest(r)
+			other := world.Honest(r, world.HonestOpts{Platform: w.P})
+			forged := w.Clone()
+			forged.Q.SignQE(world.NewKey())
+			for _, lvl := range []int{world.LBase, world.LCrl} {
+				c, cf := w.Case(lvl, "returned-value-edited-by-caller", fmt.Sprintf("w%d", wi)), forged.Case(lvl, "returned-value-edited-by-caller", fmt.Sprintf("w%d/forged", wi))
+				m := mon.MessageFor("built", c.Quote)
+				before, beforeF := mon.RunVerify(c), mon.RunVerify(cf)
+				prob := ""
+				var chain *verify.PCKCertificateChain
+				pv, st := mon.Guard(func() {
+					var err error
+					chain, err = verify.ExtractChainFromQuote(m)
+					if err != nil || chain == nil {
+						return
+					}
+					switch wi % 4 { // the caller does as it pleases with what it was given
+					case 0:
+						chain.PCKCertificate, chain.IntermediateCertificate, chain.RootCertificate = other.PKI.Leaf.Cert, other.PKI.Inter.Cert, other.PKI.Root.Cert
+					case 1:
+						chain.PCKCertificate.Extensions = nil
+						chain.PCKCertificate.Raw = nil
+					case 2:
+						chain.RootCertificate.PublicKey = other.PKI.Root.Cert.PublicKey
+						chain.IntermediateCertificate.NotAfter = time.Unix(0, 0)
+					case 3:
+						*chain = verify.PCKCertificateChain{}
+					}
+				})
+				if pv != "" {
+					prob = "ExtractChainFromQuote panics: " + pv + "\n" + st
+				}
+				// ... and with the levels the reporting API hands out, through the options value it verified with
+				o, _ := mon.Options(c)
+				if pv, st := mon.Guard(func() {
+					_ = verify.TdxQuote(m, o)
+					if lvl != world.LBase {
+						if l1, l2, err := verify.SupportedTcbLevelsFromCollateral(m, o); err == nil {
+							for i := range l1.Tcb.SgxTcbcomponents {
+								l1.Tcb.SgxTcbcomponents[i].Svn = 255
+							}
+							for i := range l1.Tcb.TdxTcbcomponents {
+								l1.Tcb.TdxTcbcomponents[i].Svn = 255
+							}
+							l1.TcbStatus, l2.TcbStatus = "Revoked", "Revoked"
+							_, _ = l1, l2
+						}
+					}
+				}); pv != "" && prob == "" {
+					prob = "after the caller edited the certificate chain ExtractChainFromQuote had returned, verifying the same quote panics: " + pv + "\n" + st
+				}
+				do := verify.DefaultOptions()
+				do.GetCollateral, do.CheckRevocations, do.TrustedRoots = true, true, o.TrustedRoots
+				if do.Now != nil {
+					do.Now.PckCertChain = time.Unix(0, 0)
+				}
+				after, afterF := mon.RunVerify(c), mon.RunVerify(cf)
+				afterShared := mon.RunVerifyShared(c, o)
+				d2 := verify.DefaultOptions()
+				switch {
+				case prob != "":
+				case !before.Accepted || beforeF.Accepted:
+					x.Broken("returned-value-edited-by-caller: honest accepted=" + fmt.Sprint(before.Accepted) + " forged accepted=" + fmt.Sprint(beforeF.Accepted))
+				case !after.Accepted || afterF.Accepted || !afterShared.Accepted:
+					prob = fmt.Sprintf("after the caller edited values the library had returned (certificate chain, reported TCB levels), the honest quote is accepted=%v (%s) through fresh options and accepted=%v (%s) through the options it verified with before, the forged one accepted=%v; before the edits: true / false", after.Accepted, after.Err, afterShared.Accepted, afterShared.Err, afterF.Accepted)
+				case d2 == do || d2.GetCollateral || d2.CheckRevocations || d2.TrustedRoots != nil || (d2.Now != nil && (d2.Now == do.Now || d2.Now.PckCertChain.Before(time.Unix(1e9, 0)))):
+					prob = fmt.Sprintf("DefaultOptions() after a caller edited an earlier result: GetCollateral=%v CheckRevocations=%v TrustedRoots set=%v (same object: %v)", d2.GetCollateral, d2.CheckRevocations, d2.TrustedRoots != nil, d2 == do)
+				}
+				if prob != "" {
+					x.Violation("returned-value-edited-by-caller", c.Param+"/"+lvlName(lvl), prob, "verify", c)
+				}
+				x.Note("returned-value-edited-by-caller", c.Param+"/"+lvlName(lvl), after.Accepted, false, prob == "")
+				n++
+			}
+		}
+		x.Require("returned-value-edited-by-caller", n, 0, n)
+	}
+
 	// ---- (c) histories through one shared Options value
 	nh := x.Pick(200, 5000)
 	x.Each(nh, func(i int) {
@@ -599,3 +684,5 @@ func staleDefaultTime(x *mon.Ctx) {
 	x.Note("stale-default-time", "", errShared == nil, false, true)
 	x.Sample(wit)
 }
+
+func lvlName(l int) string { return []string{"base", "coll", "crl"}[l] }
